@@ -230,6 +230,14 @@ def run(ck, model_ok):
                     rr = ('err', r[1][:1] if len(r[1]) > 1 and not r[1][0] == 'ReadError' else r[1])
                 else:
                     rr = ('ok',) + tuple((o[0], o[1][:1]) if o[0] == 'err' else o for o in r[1:])
+                if mm == ('err', ('IOther',)):
+                    ck.count('model:outside-the-model')      # e.g. a mapping where the model expects a sequence (info.files as a dict)
+                    continue
+                if mm[0] == 'ok' and rr[0] == 'ok' and len(mm) == len(rr) and ('err', ('IOther',)) in mm:
+                    # the same inside a component (validation of a file whose path is a mapping): compare the other components
+                    ck.count('model:component-outside-the-model')
+                    keep = [i for i in range(len(mm)) if mm[i] != ('err', ('IOther',))]
+                    mm, rr = tuple(mm[i] for i in keep), tuple(rr[i] for i in keep)
                 # recursion depth is interpreter-state dependent: compare only the class
                 if mm != rr and not (mm[0] == 'err' and rr[0] == 'err' and {mm[1][0], rr[1][0]} <= {'RecursionError', 'MetainfoError', 'BdecodeError'} and b'l' * 300 in x):
                     try:
